@@ -43,6 +43,8 @@ def parse_cases():
           'a?b:c', 'a ?b :c', 'a ? b : c : d', 'a ? : c', '{a:b}?c:d']
     # no escape processing in strings (C10, C12): a backslash is an ordinary character and the first matching quote closes the string
     c += ['"it\'s \\"ok\\""', "'a\\'b'", '"a\\"', "'\\'", '"a\\" + "b"', "'\\' == '\\'", "\"a' + 'b\\\"\"", "'\\n'", '"\\\\"']
+    # the content is the verbatim source between the delimiting quotes, the other quote character included (C10)
+    c += ['"\'hello\'"', "'\"'", '"\'"', "'\"x'", '"x\'"', '"\'\'"', "'\"\"'", '"\'x\'" == "x"', "'\"a\" b'", '"\'\'a\'\'"', "[\"'\", '\"']", "f('\"q\"')"]
     for k in list(range(0, 10)) + list(range(14, 34)) + [62, 63, 64, 126, 127, 128, 254, 255, 256]:
         for u in ['é', '日', '🙂']:
             c.append("'" + 'a' * k + u * 4 + "'")
@@ -53,7 +55,8 @@ def parse_cases():
     # multi-byte neighbours (C01 / C10)
     for u in ['é', 'ü', '日本', '🙂', 'ключ']:
         c += ['+%s' % u, '1+%s' % u, 'a>=%s' % u, '!%s' % u, 'x &&%s' % u, "'%s'" % u, "'%s'=='%s'" % (u, u), "['%s',1,2]" % u, "{'%s':1}" % u, "f('%s')" % u, "'%s')" % u, "['%s',,1]" % u,
-              '%s' % u, '%s + 1' % u, '%s(1)' % u, 'a %s b' % u, "'%s" % u, '"%s\' + 1' % u, "x = '%s'; x" % u, '%s%s' % (u, u), '1 %s' % u, '(%s)' % u, '[%s]' % u]
+              '%s' % u, '%s + 1' % u, '%s(1)' % u, 'a %s b' % u, "'%s" % u, '"%s\' + 1' % u, "x = '%s'; x" % u, '%s%s' % (u, u), '1 %s' % u, '(%s)' % u, '[%s]' % u,
+              '{1: %s}' % u, '{%s: %s}' % (u, u), '[1, %s]' % u, 'f(1, %s)' % u, 'a ? %s : %s' % (u, u), '{1: %s, 2: [%s]}' % (u, u), 'x = %s; x' % u, '%s = 1' % u, '- %s' % u, '%s ++' % u, 'a; %s' % u, '{%s(1): -%s}' % (u, u)]
     return c
 
 def corrupt(seeds, rnd, limit):
@@ -139,6 +142,12 @@ def boundary_exec_cases():
                 c.append('a = %s; a %s %s; a' % (a, op, b))
     for f in ['sum', 'mul', 'min', 'max']:
         c += ['%s(9223372036854775807, 1)' % f, '%s(79228162514264337593543950335, 2)' % f, '%s((-9223372036854775808), (-1))' % f, '%s(0)' % f]
+    M = '79228162514264337593543950335'
+    for args in [(M, '1', '0'), (M, M, '(-5)'), (M, '1', '(-1)'), ('1', M, '(-%s)' % M), ('0', M, '1', '0', '0'), ('(-%s)' % M, '(-1)', '5')]:
+        c.append('sum(%s)' % ', '.join(args))
+    for args in [(M, '2', '1'), (M, '2', '0'), (M, M, '0'), ('2', M, '0.5'), ('1', M, '1', '10', '1'), ('(-%s)' % M, '(-2)', '1'), (M, '1.5', '1', '1')]:
+        c.append('mul(%s)' % ', '.join(args))
+    c += ['a = sum(%s, 1, 0); a > 0' % M, 'min(1, 2, 3)', 'min(5, (-4), 0, 9)', 'min(1, 2)', 'min(2, 2)', 'max(1, 9, 3)', 'max(9, 1, 3, 9)', 'min(3, 1, 2, 1, 5)', 'max((-1), (-9), (-3))', 'min(0.5, 0.50, 0.05)', 'max(0.5, 0.50, 5.0)']
     c += ['9223372036854775807++', '(-9223372036854775808)--', '79228162514264337593543950335++', '-(-9223372036854775808)', '- 79228162514264337593543950335', '+(-0.5)']
     return c
 
@@ -192,7 +201,7 @@ def conv_cases():
     for ty, (lo, hi) in lim.items():
         for n in sorted(set([lo, lo + 1, -1, 0, 1, 42, hi - 1, hi, 2**63 - 1, 2**63, 2**63 + 5, 2**64 - 1])):
             if lo <= n <= hi: c.append('%s:%d' % (ty, n))
-    for e in ['0.9999999999999999999999999999', '1.0000000000000000000000000001', '2.9999999999999999999999999', '1/3*3', '(-0.9999999999999999999999999999)', '4.000000000000000000000000000', '3', '3.0', '3.00', '3.5', '-4.0', '9223372036854775807', '9223372036854775808', '(-9223372036854775807) - 1', '(-9223372036854775807) - 2', '18446744073709551615', '18446744073709551621', '0.0', '1.5 * 2', '7 / 2']:
+    for e in ['0.9999999999999999999999999999', '1.0000000000000000000000000001', '2.9999999999999999999999999', '1/3*3', '(-0.9999999999999999999999999999)', '4.000000000000000000000000000', '3', '3.0', '3.00', '3.5', '-4.0', '9223372036854775807', '9223372036854775808', '(-9223372036854775807) - 1', '(-9223372036854775807) - 2', '18446744073709551615', '18446744073709551621', '0.0', '1.5 * 2', '7 / 2', '10.05', '0.05', '(-1.0025)', '1.005', '100.0001', '5.00000000000000000000000001', '1.10', '20.0', '0.000', '1.0101', '3.0300', '1000000.0000001', '9223372036854775807.01', '(-9223372036854775808.001)', '0.1', '0.01', '2.50', '7.000001', '(-0.000000000000000000000000001)', '120', '1200.00', '0.10'] + ['%d.%s%d' % (i, '0' * z, d) for i in (0, 9, 10, 255) for z in (1, 2, 5) for d in (1, 5, 9)]:
         c.append('dec:' + e)
     return c
 
@@ -257,6 +266,10 @@ SCRIPTS = [
         ('exec', '## 5', {}), ('exec', '# 5', {}), ('exec', '7 @@ 2', {}), ('exec', '9 is-not 4', {}), ('exec', '~> 5', {}), ('exec', '# # 5', {})],
        expect=[None, None, None, None, None, ('val', 'List([String("h2"), Number(5)])', ['C10', 'C05']), ('val', 'List([String("h1"), Number(5)])', ['C10', 'C05']), ('val', 'List([String("at"), Number(7), Number(2)])', ['C10', 'C05']), ('val', 'List([String("isnot"), Number(9), Number(4)])', ['C10', 'C05']),
                ('val', 'List([String("arrow"), Number(5)])', ['C10', 'C05']), ('val', 'List([String("h1"), List([String("h1"), Number(5)])])', ['C10', 'C05'])]),
+  dict(name='names_that_differ_from_keywords_only_in_case', steps=[('reg_fn', 'TRUE', dict(tag='kT')), ('reg_fn', 'FALSE', dict(tag='kF')), ('reg_fn', 'tRue', dict(tag='kt')), ('reg_fn', 'Not', dict(tag='kN')), ('reg_fn', 'IN', dict(tag='kI')), ('reg_fn', 'and', dict(tag='ka')), ('reg_fn', 'Or', dict(tag='ko')), ('reg_fn', 'BeginWith', dict(tag='kb')),
+        ('exec', 'TRUE(1)', {}), ('exec', 'FALSE(21)', {}), ('exec', 'tRue()', {}), ('exec', 'Not(true)', {}), ('exec', 'IN(1, 2)', {}), ('exec', 'and(1)', {}), ('exec', 'Or()', {}), ('exec', 'BeginWith(1)', {}), ('exec', 'True', {}), ('exec', 'false', {}), ('parse', 'TRUE', {}), ('parse', 'fALSE == faLse', {})],
+       expect=[None] * 8 + [('val', 'String("kT")', ['C08', 'C10']), ('val', 'String("kF")', ['C08', 'C10']), ('val', 'String("kt")', ['C08', 'C10']), ('val', 'String("kN")', ['C08', 'C10']), ('val', 'String("kI")', ['C08', 'C10']), ('val', 'String("ka")', ['C08', 'C10']), ('val', 'String("ko")', ['C08', 'C10']), ('val', 'String("kb")', ['C08', 'C10']),
+               ('val', 'Bool(true)'), ('val', 'Bool(false)'), ('ast', 'Reference("TRUE")'), ('ast', 'Binary("==", Reference("fALSE"), Reference("faLse"))')]),
   dict(name='postfix_registered_after_use', steps=[('parse', '5!!', {}), ('reg_postfix', '!!', dict(tag='ff')), ('parse', '5!!', {})], expect=[('reject',), None, ('ast', 'Postfix(Literal(Number(5)), "!!")')]),
   dict(name='word_postfix_registered_after_use', steps=[('parse', '3 squared', {}), ('reg_postfix', 'squared', dict(tag='sq')), ('parse', '3 squared', {})],
        expect=[('ast', 'Stmt([Literal(Number(3)), Reference("squared")])'), None, ('ast', 'Postfix(Literal(Number(3)), "squared")')]),
